@@ -3,8 +3,13 @@
 //! to the checker.
 use std::time::{Duration, SystemTime};
 use routinator::config::Config;
-use routinator::payload::{PayloadSnapshot, SharedHistory};
-use rpki::repository::x509::Time;
+use std::sync::Arc;
+use routinator::metrics::{Metrics, TalMetrics};
+use routinator::payload::{PublishInfo, SharedHistory, ValidationReport};
+use routinator::slurm::LocalExceptions;
+use rpki::repository::tal::TalInfo;
+use rpki::repository::x509::{Time, Validity};
+use rpki::resources::asn::{Asn, SmallAsnSet};
 use rv_harness::util::*;
 use serde_json::{json, Value};
 
@@ -12,21 +17,28 @@ fn gen(rng: &mut Rng, tier: &str) -> Vec<(String, Value)> {
     let mut cases = Vec::new();
     let secs: [u64; 7] = [0, 1, 59, 60, 600, 601, 86400];
     let exp: [Option<i64>; 9] = [None, Some(-3600), Some(-1), Some(0), Some(30), Some(60), Some(599), Some(600), Some(90000)];
+    // "prev": the data-set expiry of an earlier run with the SAME payload (the run under test must replace it)
+    let mut k = 0u64;
     for r in secs { for m in [None, Some(0u64), Some(1), Some(60), Some(600), Some(3600)] { for e in exp {
-        cases.push((format!("grid.min_{}", if m.is_some() { "set" } else { "unset" }), json!({"refresh": r, "min": m, "expiry": e})));
+        k += 1;
+        let prev: Value = match k % 3 { 0 => Value::Null, 1 => json!(e.unwrap_or(500) + 86_400), _ => json!(e.unwrap_or(500) - 100) };
+        cases.push((format!("grid.min_{}{}", if m.is_some() { "set" } else { "unset" }, if prev.is_null() { "" } else { ".after_same_payload" }),
+                    json!({"refresh": r, "min": m, "expiry": e, "prev": prev})));
     }}}
     let n = if tier == "thorough" { 2000 } else { 200 };
     for _ in 0..n {
         let r = rng.range(0, 100_000);
         let m = if rng.chance(1, 3) { None } else { Some(rng.range(0, 100_000)) };
         let e = if rng.chance(1, 4) { None } else { Some(rng.range(0, 200_000) as i64 - 50_000) };
-        cases.push(("random".into(), json!({"refresh": r, "min": m, "expiry": e})));
+        let prev: Value = if rng.chance(1, 2) { Value::Null } else { json!(rng.range(0, 200_000) as i64 - 50_000) };
+        cases.push((if prev.is_null() { "random".into() } else { "random.after_same_payload".into() }, json!({"refresh": r, "min": m, "expiry": e, "prev": prev})));
     }
     cases
 }
 
 fn run(input: &Value) -> CaseOut {
     let mut config = Config::default_with_paths(Default::default(), std::env::temp_dir());
+    config.enable_aspa = true;
     config.refresh = Duration::from_secs(input["refresh"].as_u64().unwrap());
     config.min_refresh = input["min"].as_u64().map(Duration::from_secs);
     let hist = SharedHistory::from_config(&config);
@@ -35,7 +47,27 @@ fn run(input: &Value) -> CaseOut {
     // the deadline has whole seconds (rpki Time); bracket (deadline - completion time) in nanoseconds
     let expiry_abs = input["expiry"].as_i64().map(|e| t0s + e);
     let refresh_time = expiry_abs.map(|e| Time::new(chrono::DateTime::from_timestamp(e, 0).unwrap()));
-    hist.verif_replace_current(PayloadSnapshot::new(std::iter::empty(), std::iter::empty(), std::iter::empty(), refresh_time));
+    // the data set is installed through the real SharedHistory::update: one publication point (hook
+    // ValidationReport::verif_push_point) carrying one ASPA, whose refresh time is the expiry; an earlier run with
+    // the same payload and another expiry comes first when the case says so
+    let install = |expiry: Option<Time>| {
+        let report = ValidationReport::new(&config);
+        if let Some(t) = expiry {
+            let info = Arc::new(PublishInfo {
+                tal: Arc::new(TalInfo::from_name("t".into())), uri: None,
+                roa_validity: Validity::new(Time::utc(2020, 1, 1, 0, 0, 0), Time::utc(2040, 1, 1, 0, 0, 0)),
+                chain_validity: Validity::new(Time::utc(2020, 1, 1, 0, 0, 0), Time::utc(2040, 1, 1, 0, 0, 0)),
+                point_stale: Time::utc(2040, 1, 1, 0, 0, 0),
+            });
+            let provs = unsafe { SmallAsnSet::from_vec_unchecked(vec![Asn::from_u32(64500)]) };
+            report.verif_push_point(0, t, Vec::new(), Vec::new(), vec![(Asn::from_u32(64496), provs)], info);
+        }
+        let mut metrics = Metrics::default();
+        metrics.tals = vec![TalMetrics::new(Arc::new(TalInfo::from_name("t".into())))];
+        hist.update(report, &LocalExceptions::empty(), metrics);
+    };
+    if let Some(p) = input["prev"].as_i64() { install(Some(Time::new(chrono::DateTime::from_timestamp(t0s + p, 0).unwrap()))); }
+    install(refresh_time);
     let before = SystemTime::now();
     hist.mark_update_done();
     let wait = hist.read().refresh_wait();
